@@ -7,17 +7,18 @@ pub mod stub {
     use std::cmp::Ordering;
     /// std::time::SystemTime as (seconds since the epoch, sub-second nanoseconds).
     #[derive(Clone, Copy)]
-    pub struct SystemTime { pub secs: u64, pub nanos: u32 }
+    pub struct SystemTime { pub secs: i64, pub nanos: u32 }
     pub uninterp spec fn clock_now() -> SystemTime;
     impl SystemTime {
         pub const UNIX_EPOCH: SystemTime = SystemTime { secs: 0, nanos: 0 };
+        /// The clock is a valid time between the epoch and year 9999 (assumed).
         #[verifier::external_body]
-        pub fn now() -> (r: SystemTime) ensures r == clock_now() { unimplemented!() }
-        /// Times before the epoch are outside this model (secs is unsigned): duration_since(UNIX_EPOCH) is Ok.
+        pub fn now() -> (r: SystemTime) ensures r == clock_now(), 0 <= r.secs < 253402300800, r.nanos < 1_000_000_000 { unimplemented!() }
+        /// `duration_since(UNIX_EPOCH)`: Err for times before the epoch (secs < 0 in this model).
         pub fn duration_since(&self, earlier: SystemTime) -> (r: Result<Duration, SystemTimeError>)
             requires earlier.secs == 0 && earlier.nanos == 0, self.nanos < 1_000_000_000,
-            ensures r matches Ok(d) && d.secs == self.secs && d.nanos == self.nanos
-        { Ok(Duration { secs: self.secs, nanos: self.nanos }) }
+            ensures self.secs >= 0 ==> (r matches Ok(d) && d.secs == self.secs && d.nanos == self.nanos), self.secs < 0 ==> r is Err,
+        { if self.secs >= 0 { Ok(Duration { secs: self.secs as u64, nanos: self.nanos }) } else { Err(SystemTimeError) } }
     }
     pub struct SystemTimeError;
     /// std::time::Duration
@@ -68,14 +69,17 @@ pub mod stub {
             if self.secs < o.secs || (self.secs == o.secs && self.nanos < o.nanos) { Ordering::Less } else if self.secs == o.secs && self.nanos == o.nanos { Ordering::Equal } else { Ordering::Greater }
         }
     }
-    /// httpdate: `fmt_http_date(t)` renders t truncated to the second; `parse_http_date` yields whole seconds.
+    /// httpdate: `fmt_http_date(t)` renders t truncated to the second and PANICS for times before the epoch or from
+    /// year 9999 on (`HttpDate::from`) - a precondition here; `parse_http_date` yields whole seconds.
     pub struct HDate { pub t: Ghost<SystemTime> }
     #[verifier::external_body]
-    pub fn fmt_http_date(t: SystemTime) -> (r: HDate) ensures r.t@ == t { unimplemented!() }
+    pub fn fmt_http_date(t: SystemTime) -> (r: HDate)
+        requires 0 <= t.secs < 253402300800,
+        ensures r.t@ == t { unimplemented!() }
     pub struct DateError;
     pub uninterp spec fn sp_http_date(s: crate::strs::Str) -> Option<SystemTime>;
     pub broadcast axiom fn http_date_whole_second(s: crate::strs::Str)
-        ensures (#[trigger] sp_http_date(s)) matches Some(t) ==> t.nanos == 0;
+        ensures (#[trigger] sp_http_date(s)) matches Some(t) ==> t.nanos == 0 && 0 <= t.secs < 253402300800;
     #[verifier::external_body]
     pub fn parse_http_date(s: crate::strs::Str) -> (r: Result<SystemTime, DateError>)
         ensures r.is_ok() == sp_http_date(s).is_some(), r matches Ok(t) ==> Some(t) == sp_http_date(s)
